@@ -99,6 +99,7 @@ def asset_dump(report: report_model.FullReport, asset: str, rows: List[Dict[str,
     # ---- taxable flags from the In-Out sheet
     taxable: List[Dict[str, Any]] = []
     listed: Dict[str, List[int]] = {"in": [], "out": [], "intra": []}
+    ins: List[Dict[str, Any]] = []
     start = 0
     for table, title, type_col, taxable_col in (("in", "In-Flow Detail", 5, 12), ("out", "Out-Flow Detail", 5, 13), ("intra", "Intra-Flow Detail", None, 13)):
         title_row, data = report.table_rows(in_out, title, 1, start)
@@ -112,6 +113,9 @@ def asset_dump(report: report_model.FullReport, asset: str, rows: List[Dict[str,
                 problems.append(f"{table} row with unique id {key[1]!r} cannot be related to an input row")
                 continue
             listed[table].append(by_key[key])
+            if table == "in":
+                shown = cellv(row, 0)
+                ins.append({"row": by_key[key], "sold_pct": num(shown) if shown not in (None, "") else Fraction(0)})
             if str(cellv(row, taxable_col)) == "YES":
                 if table == "in":
                     amount = amount11(cellv(row, 7))
@@ -178,7 +182,7 @@ def asset_dump(report: report_model.FullReport, asset: str, rows: List[Dict[str,
         )
     if problems:
         return {"ok": False, "error_type": "ReportNotRelatable", "error": "; ".join(problems[:3]), "internal": False}
-    return {"ok": True, "fractions": fractions, "taxable": taxable, "yearly": yearly, "balances": balances, "holder_totals": holder_totals, "listed": listed}
+    return {"ok": True, "fractions": fractions, "taxable": taxable, "yearly": yearly, "balances": balances, "holder_totals": holder_totals, "listed": listed, "ins": ins, "ins_rel": Fraction(1, 10**11)}
 
 
 def evaluate_assets(case: Dict[str, Any], tag: str, judge: Any, failure_is_violation: Tuple[str, ...] = ()) -> Any:
